@@ -123,7 +123,15 @@ InKScope(x, w) == Tenv(x, w) /\ w.bounds \in {"EXTERIOR", "GROUND"}
 \* exposed gross area, 10^-6 m2
 ExposedBig(x) == BigSumSeq(x.walls, LAMBDA w : IF InKScope(x, w) THEN BigProd2(w.area, MultOf(x, w)) ELSE BigZero)
 
+\* the other figures reported for each space: its net volume is its area times its net height (0.01 m3), its multiplier and
+\* storey height are the model's
+SpaceFiguresOk(x, p) ==
+  \A i \in DOMAIN x.spaces : ("vnet" \in DOMAIN p.spaces[i] /\ p.spaces[i].hnet # None) =>
+        /\ BigApprox(Scale(p.spaces[i].vnet, 6), BigProd2(p.spaces[i].area, p.spaces[i].hnet), Scale(1, 6), 10)
+        /\ p.spaces[i].mult = x.spaces[i].mult
+        /\ Abs(p.spaces[i].height - x.spaces[i].h) <= 1
 GlobalsOk(x, p, g) ==
+  /\ SpaceFiguresOk(x, p)
   /\ BigApprox(Scale(g.aref, 4), ARefBig(x, p), BigOf(6000), 5)                      \* rounded to 0.01 m2
   /\ BigApprox(Scale(g.vgross, 8), VolGrossBig(x, p), Scale(6, 7), 10)               \* rounded to 0.01 m3
   /\ BigApprox(Scale(g.vnet, 8), VolNetBig(x, p), Scale(6, 7), 10)
